@@ -62,7 +62,14 @@ def check_roundtrip(sh, fa, case, parsed, prop="C01"):
     """Returns (bytes, tree, expected) or None if a violation was recorded."""
     js, node, datum = case["schema"], case["node"], case["datum"]
     before = copy.deepcopy(js)
-    schema_arg = fa.parse_schema(copy.deepcopy(js)) if parsed else copy.deepcopy(js)
+    if parsed:
+        st, schema_arg = guard(fa.parse_schema, copy.deepcopy(js))
+        if st == "exc":
+            sh.violation("parse-rejected-valid-schema", "parse_schema raised %s on a specification-valid schema" % exc_name(schema_arg),
+                         {"schema": js, "datum": datum, "parsed": parsed})
+            return None
+    else:
+        schema_arg = copy.deepcopy(js)
     st, data = guard(write_value, fa, schema_arg, datum)
     if st == "exc":
         sh.violation("writer-raised", "schemaless_writer raised %s on a conforming datum" % exc_name(data),
@@ -148,7 +155,7 @@ def run_shard(spec):
             sh.count("by_name_cases")
         if "big_collection" in feats or "coll_big" in feats:
             sh.count("big_collections")
-        r = one_case(sh, fa, case, parsed)
+        r = sh.run_case(one_case, sh, fa, case, parsed)
         if i % 500 == 1:
             sh.sample({"schema": case["schema"], "datum": printable(case["datum"], 300), "parsed": parsed})
         if r is not None:
